@@ -733,7 +733,7 @@ pub fn classify_death(status: &std::process::ExitStatus, stderr_tail: &str, time
     )
 }
 
-const HANG_BUDGET_S: u64 = 60;
+const HANG_BUDGET_S: u64 = 30;
 
 /// hangs seen in this part; after a few the rest of the batch is abandoned (the violation is
 /// recorded; waiting a full hang budget for thousands of runs would only delay the report)
@@ -754,7 +754,7 @@ fn supervise_range(
     let mut resume_from: usize = 0;
     let mut deaths_in_run = 0u32;
     while lo < hi {
-        if HANGS.load(Ordering::Relaxed) >= 3 {
+        if HANGS.load(Ordering::Relaxed) >= 2 {
             let note = "batch abandoned after repeated hangs: some runs were not executed".to_string();
             if !agg.notes.contains(&note) {
                 agg.notes.push(note);
